@@ -205,9 +205,9 @@ impl Check for NftConsecutive {
     }
     fn runs(&self, tier: Tier) -> u64 {
         if tier == Tier::Quick {
-            400
+            800
         } else {
-            30_000
+            30000
         }
     }
     fn components(&self) -> serde_json::Value {
